@@ -565,6 +565,111 @@ fn emit(sink: &mut Sink, idx: u64, kind: &str, runs: &[Run], seed: u64) {
     });
 }
 
+// ---- snapshots taken by a reader while another thread is capturing ------------------------------
+
+/// A storage seen through `SharedStorage::lock()` while a writer thread is capturing spans into it
+/// must be a consistent forest as well (the layer mutates it under one write-lock acquisition per
+/// callback).  One case = up to `rounds` rounds of: a fresh storage, a writer thread that creates a
+/// small forest, and this thread taking snapshots in a loop.  A cheap scan (does every span appear in
+/// its parent's child list resp. in the root list?) only *selects* which snapshot is handed to the
+/// judge: the first suspicious one, otherwise the last one taken while the writer was still running.
+fn reader_case(sink: &mut Sink, idx: u64, seed: u64, rounds: usize) {
+    if !sink.wants(idx) {
+        return;
+    }
+    use std::sync::atomic::{AtomicBool, Ordering};
+    let mut r = Rng::for_case(seed, "C17-reader", idx);
+    let roots = r.range(2, 4) as u64;
+    let children = r.range(4, 9) as u64;
+    let mut chosen: Option<(StorageObs, Vec<CmpObs>, bool)> = None;
+    let mut snapshots = 0u64;
+    let mut rounds_run = 0u64;
+    for _ in 0..rounds {
+        rounds_run += 1;
+        let storage = SharedStorage::default();
+        let layer = CaptureLayer::new(&storage);
+        let subscriber = Registry::default().with(layer);
+        let done = AtomicBool::new(false);
+        let started = AtomicBool::new(false);
+        let mut picked: Option<(StorageObs, Vec<CmpObs>, bool)> = None;
+        std::thread::scope(|scope| {
+            scope.spawn(|| {
+                tracing::subscriber::with_default(subscriber, || {
+                    while !started.load(Ordering::Acquire) {
+                        std::hint::spin_loop();
+                    }
+                    let mut i = 0u64;
+                    for _ in 0..roots {
+                        let root = tracing::info_span!(parent: None, "s", i);
+                        i += 1;
+                        for k in 0..children {
+                            let child = tracing::info_span!(parent: &root, "s", i);
+                            i += 1;
+                            if k % 3 == 0 {
+                                tracing::info!(parent: &child, i, "e");
+                                i += 1;
+                                let grandchild = tracing::info_span!(parent: &child, "s", i);
+                                i += 1;
+                                drop(grandchild);
+                            }
+                        }
+                    }
+                });
+                done.store(true, Ordering::Release);
+            });
+            started.store(true, Ordering::Release);
+            while !done.load(Ordering::Acquire) {
+                let guard = storage.lock();
+                let st: &Storage = &guard;
+                snapshots += 1;
+                let suspicious = st.all_spans().any(|s| match s.parent() {
+                    Some(p) => !p.children().any(|c| c == s),
+                    None => !st.root_spans().any(|x| x == s),
+                });
+                if suspicious || (picked.is_none() && st.all_spans().len() > 0) {
+                    let mut rr = Rng::for_case(seed, "C17-reader-cmp", idx);
+                    picked = Some((observe(st, None), compare(&[st], &mut rr), suspicious));
+                }
+                drop(guard);
+                if suspicious {
+                    break;
+                }
+            }
+        });
+        if let Some(p) = picked {
+            let hit = p.2;
+            if hit || chosen.is_none() {
+                chosen = Some(p);
+            }
+            if hit {
+                break;
+            }
+        }
+    }
+    let (obs, cmps, suspicious) = match chosen {
+        Some(c) => c,
+        None => {
+            // the writer always finished before the first snapshot: judge the final storage
+            let storage = SharedStorage::default();
+            let guard = storage.lock();
+            (observe(&guard, None), vec![], false)
+        }
+    };
+    sink.bump_by("reader:rounds", rounds_run);
+    sink.bump_by("reader:snapshots", snapshots);
+    sink.bump(if suspicious { "reader:suspicious-snapshot" } else { "reader:all-snapshots-plausible" });
+    let n = obs.spans.len();
+    let judge = format!("judge_c17 {} {}", clist(std::iter::once(&obs), csto), clist(cmps.iter(), ccmp));
+    let key = format!("reader|{roots}x{children}|{idx}");
+    sink.case(idx, "concurrent-reader", &judge, &key, n >= 3, || {
+        serde_json::json!({
+            "kind": "snapshot taken through SharedStorage::lock() while a writer thread was capturing",
+            "roots": roots, "children_per_root": children, "spans_in_snapshot": n,
+            "rounds": rounds_run, "snapshots_scanned": snapshots, "scan_flagged_it": suspicious,
+        })
+    });
+}
+
 // ---- generators -------------------------------------------------------------------------------
 
 /// Forest given by a parent vector, created through explicit parents; one event per span, one root
@@ -781,12 +886,20 @@ pub fn run(o: &Opts) {
         idx += 1;
     }
 
+    // 4. snapshots taken by a reader while a writer thread is capturing
+    let n_reader = if o.thorough { 200 } else { 12 } * o.scale;
+    for _ in 0..n_reader {
+        reader_case(&mut sink, idx, o.seed, if o.thorough { 600 } else { 300 });
+        idx += 1;
+    }
+
     sink.finish(
         "one case = one or two storages captured from generated tracing programs (static call sites, INFO/DEBUG, contextual / explicit / \
          explicit-root parents, enter/exit nesting incl. out-of-order exits, follows_from, handle drops; optionally LevelFilter::INFO on the \
          layer), every query of the public API on every span and event, plus ==/partial_cmp samples within and across the storages. \
          Streams: hand-written shapes (empty, single, depth-30 chains, 40-wide fans, 40 roots), all forests up to 5 spans by parent vector, \
-         all forests up to 4 spans x all level assignments under the filter, random programs. \
+         all forests up to 4 spans x all level assignments under the filter, random programs; snapshots taken through \
+         SharedStorage::lock() by a reader while a writer thread is capturing a small forest (a scan picks the snapshot handed to the judge). \
          non-trivial = first storage has >= 3 spans, depth >= 3 and an event at depth >= 2; distinct = distinct program text",
         serde_json::json!({ "exhaustive_spans": 5, "exhaustive_filtered_spans": max_filtered }),
     );
